@@ -11,7 +11,7 @@ Definition Id := (nat * nat)%type.            (* (kind, identity) *)
 Definition St := list Z.
 Definition Wd := list (nat * Z).
 Definition fstep (i : Id) (w : Wd) (s : St) (x : Z) : Wd * St * Z :=
-  let w' := w ++ [(snd i, x)] in
+  let w' := (snd i, x) :: w in          (* newest first; compared reversed (linear for long soak runs) *)
   match fst i with
   | 0%nat => let a := hd 0 s + x in (w', [a], a)
   | 1%nat => (w', [x], match s with [] => 0 | p :: _ => x - p end)
@@ -19,10 +19,10 @@ Definition fstep (i : Id) (w : Wd) (s : St) (x : Z) : Wd * St * Z :=
   | _ => (w', s, 2 * x + 1)
   end.
 Definition sstep (i : Id) (w : Wd) (s : St) : Wd * St * option Z :=
-  let w' := w ++ [(snd i, -1)] in
+  let w' := (snd i, -1) :: w in
   match s with [] => (w', [], None) | x :: r => if x =? -999 then (w', r, None) else (w', r, Some x) end.
 Definition kstep (i : Id) (w : Wd) (s : St) (x : Z) : Wd * St :=
-  let w' := w ++ [(snd i, x)] in
+  let w' := (snd i, x) :: w in
   match fst i with
   | 5%nat => (w', match s with [] => [x] | a :: _ => [a + x] end)
   | 6%nat => (w', match s with [] => [x] | a :: _ => [if a <? x then x else a] end)
@@ -76,11 +76,16 @@ Fixpoint run_flat (mode : nat) (w : Wd) (ls : list (Id * St)) (xs : list Z) : Wd
              end
       end
   end.
+(* soak runs (more than 5000 samples) report only the LENGTH of the call log, as the single pair (length, 0) *)
+Definition log_ok (c : case) (w : Wd) : bool :=
+  if (5000 <? length (cxs c))%nat
+  then match clog c with [(n, _)] => Nat.eqb (length w) n | _ => false end
+  else list_eqb log_eqb (rev w) (clog c).
 Definition check (c : case) : verdict :=
   let '(w, p, ys) := run_tree (cmode c) [] (cpipe c) (cxs c) in
-  let model_ok := negb (cpanic c) && list_eqb oz_eqb ys (cys c) && list_eqb log_eqb w (clog c)
+  let model_ok := negb (cpanic c) && list_eqb oz_eqb ys (cys c) && log_ok c w
                   && match cmode c with 2%nat => list_eqb Z.eqb (pfinalize Id St (list Z) fin p) (cfin c) | _ => true end in
   let '(w', ls, ys') := run_flat (cmode c) [] (leaves Id St (cpipe c)) (cxs c) in
-  let spec_ok := negb (cpanic c) && list_eqb oz_eqb ys' (cys c) && list_eqb log_eqb w' (clog c)
+  let spec_ok := negb (cpanic c) && list_eqb oz_eqb ys' (cys c) && log_ok c w'
                  && match cmode c with 2%nat => list_eqb Z.eqb (snd (last ls ((0%nat, 0%nat), []))) (cfin c) | _ => true end in
   mkv model_ok spec_ok ((3 <=? length (leaves Id St (cpipe c)))%nat && (2 <=? length (cxs c))%nat).
